@@ -176,6 +176,28 @@ class Canon:
             env = {k: v for k, v in env.items() if k.split('.')[0] not in shadow}
         return substitute(node, env)
 
+    def key(self, node, define=False):
+        """``text`` with the parameters named by position (A1, A2, ...), for
+        instance keys that should survive a parameter rename."""
+        text = self.text(node, define=define)
+        mapping = {}
+        pos = 0
+        for prm in self.params:
+            if prm in ('self', 'cls'):
+                continue
+            pos += 1
+            mapping[prm] = 'A%d' % pos
+        if not mapping:
+            return text
+        try:
+            tree = ast.parse(text.split(' where ')[0], mode='eval')
+        except SyntaxError:
+            tree = None
+        import re
+        return re.sub(r'(?<![\w.\'"])(%s)(?![\w\'"])' % '|'.join(
+            re.escape(k) for k in sorted(mapping, key=len, reverse=True)),
+            lambda m: mapping[m.group(1)], text)
+
     def text(self, node, env=None, define=False):
         """Canonical text.  With ``define`` the containers that are built up in
         place (and therefore stay as placeholders) are followed by how they are
